@@ -34,8 +34,13 @@ def main():
             payload = b
     tree, _ = parse(tok(payload))
     items = tree[0][1:]
+    has_setup = any(it[0] == "setup" for it in items)
     for it in items:
-        if it[0] == "db":
+        if it[0] == "setup":
+            for x in it[1:]:
+                print(bytes.fromhex(x[1:]).decode())
+    for it in items:
+        if it[0] == "db" and not has_setup:
             for n, tab in enumerate(it[1:]):
                 tys = tab[1]
                 cols = ", ".join(f"c{j} {'varchar(16)' if t == 's' else 'int'}" for j, t in enumerate(tys))
